@@ -78,11 +78,32 @@ def vals(a):
 
 def bound(ctx, val, tol, mech, **detail):
     """judge val <= tol (NaN fails)."""
+    jc(ctx, mech)
     ctx.ev()
     if not (val <= tol):
         ctx.violation(mech, dict(detail, value=float(val), tol=float(tol)))
         return False
     return True
+
+
+def jc(ctx, mech):
+    """one event of the judgement that can emit `mech` (evidence: monitor_events['j:<mechanism>'])."""
+    ctx.count('j:' + mech)
+
+
+def jclose(ctx, got, exp, mech, *a, **k):
+    jc(ctx, mech)
+    return ctx.close(got, exp, mech, *a, **k)
+
+
+def jrequire(ctx, cond, mech, detail=None):
+    jc(ctx, mech)
+    return ctx.require(cond, mech, detail)
+
+
+def jequal(ctx, got, exp, mech, *a, **k):
+    jc(ctx, mech)
+    return ctx.equal(got, exp, mech, *a, **k)
 
 
 def obs_deltas(o, chains):
@@ -125,6 +146,7 @@ class SolverMonitor(taps.Monitor):
         B = np.tril(B) + np.tril(B, -1).T
         V = vals(np.asarray(result, dtype=object))
         N = A.shape[0]
+        jc(ctx, 'solver:result-shape')
         if V.shape != (N, N):
             ctx.ev()
             ctx.violation('solver:result-shape', {'shape': V.shape, 'N': N})
@@ -376,7 +398,7 @@ def make_model(rng, N, T, t0, ts, kind='exp', nonsym=False, nonepat='no', min_de
 def judge_unchanged(ctx, m, what):
     """the input correlator (content, fluctuations, prange, tag) is what it was when it was built."""
     ctx.count('input_unchanged_judged')
-    ctx.require(fast_digest(m.corr) == m.digest0, 'mutation:input-correlator-changed', dict(what=what, N=m.N, T=m.T, rep=m.rep, stored=m.state))
+    jrequire(ctx, fast_digest(m.corr) == m.digest0, 'mutation:input-correlator-changed', dict(what=what, N=m.N, T=m.T, rep=m.rep, stored=m.state))
 
 
 def dG(m):
@@ -429,10 +451,12 @@ def judge_vectors_at(ctx, m, t0, ts, t, sort, method, vo, vs):
     fv = [vals(v) for v in vs]
     what = dict(sort=sort, method=method, vector_obs=vo, N=N, t0=t0, t=t, model=m.kind)
     aligned = [None] * N
+    jc(ctx, 'gevp:vector-shape')
     if any(v.shape != (N,) for v in fv):
         ctx.ev()
         ctx.violation('gevp:vector-shape', dict(what, shapes=[v.shape for v in fv]))
         return aligned
+    jc(ctx, 'vector_obs:entries-not-Obs')
     if vo and not all(is_obs(x) for v in vs for x in v):
         ctx.ev()
         ctx.violation('vector_obs:entries-not-Obs', what)
@@ -453,6 +477,7 @@ def judge_vectors_at(ctx, m, t0, ts, t, sort, method, vo, vs):
     ctx.count('vectors_ill_conditioned_not_judged', N - len(ok_states))
     if sort == 'Eigenvector' and t != ts and R.order_at(m.F, t0, t) != R.order_at(m.F, t0, ts) and len(ok_states) == N:
         ctx.count('sorting_nontrivial_slices_judged')
+    jc(ctx, 'order|sort-eigenvector:state-labels')
     bad = [n for n in ok_states if got_lab[n] != exp_lab[n]]
     if bad:
         ctx.ev()
@@ -496,6 +521,7 @@ def judge_vector_fluctuations(ctx, m, t0, v, l, s, rtol, what):
         if not is_obs(x):
             return
     names = sorted(set(n for x in v for n in obs_chain_names(x)))
+    jc(ctx, 'vector_obs:chain-names')
     if names != sorted(m.chains):
         ctx.ev()
         ctx.violation('vector_obs:chain-names', dict(what, got=names, exp=sorted(m.chains)))
@@ -507,12 +533,13 @@ def judge_vector_fluctuations(ctx, m, t0, v, l, s, rtol, what):
     scale = max(max(float(np.max(np.abs(e))) for e in exp.values()), 1e-300)   # an exact zero on one chain is a cancellation
     for c in m.chains:
         got = u * np.array([obs_deltas(x, m.chains)[c] for x in v])
-        ctx.close(s * got, exp[c], 'vector_obs:vector-fluctuations', 'chain ' + c, rtol=rtol, scale=scale, detail=what)
+        jclose(ctx, s * got, exp[c], 'vector_obs:vector-fluctuations', 'chain ' + c, rtol=rtol, scale=scale, detail=what)
 
 
 def judge_structure(ctx, m, t0, sort, vecs, what):
     """None pattern and shape of what GEVP returned; -> True when usable."""
     N, T = m.N, m.T
+    jc(ctx, 'gevp:number-of-states')
     if len(vecs) != N:
         ctx.ev()
         ctx.violation('gevp:number-of-states', dict(what, got=len(vecs)))
@@ -521,6 +548,7 @@ def judge_structure(ctx, m, t0, sort, vecs, what):
         return True
     ok = True
     for n in range(N):
+        jc(ctx, 'gevp:vector-list-length-is-not-T')
         if not isinstance(vecs[n], list) or len(vecs[n]) != T:
             ctx.ev()
             ctx.violation('gevp:vector-list-length-is-not-T', dict(what, got=len(vecs[n]) if hasattr(vecs[n], '__len__') else None, T=T))
@@ -528,10 +556,10 @@ def judge_structure(ctx, m, t0, sort, vecs, what):
     for t in range(t0 + 1, T):
         isnone = [vecs[n][t] is None for n in range(N)]
         if t in m.defined:
-            ok &= ctx.require(not any(isnone), 'gevp:defined-slice-without-vector', dict(what, t=t))
+            ok &= jrequire(ctx, not any(isnone), 'gevp:defined-slice-without-vector', dict(what, t=t))
         else:
             ctx.count('undefined_slices_judged')
-            ok &= ctx.require(all(isnone), 'undefined-slice:vector-is-not-None', dict(what, t=t))
+            ok &= jrequire(ctx, all(isnone), 'undefined-slice:vector-is-not-None', dict(what, t=t))
     ctx.count('entries_at_t<=t0_not_judged', N * (t0 + 1))
     return ok
 
@@ -541,6 +569,7 @@ def judge_projected(ctx, m, t0, ts, sort, n, corr, vo, fvec, what):
     the fixed-vector fluctuation oracle (vector_obs=False)."""
     N, T = m.N, m.T
     what = dict(what, state=n)
+    jc(ctx, 'projected:shape')
     if getattr(corr, 'N', None) != 1 or getattr(corr, 'T', None) != T:
         ctx.ev()
         ctx.violation('projected:shape', dict(what, N=getattr(corr, 'N', None), T=getattr(corr, 'T', None)))
@@ -552,11 +581,12 @@ def judge_projected(ctx, m, t0, ts, sort, n, corr, vo, fvec, what):
             continue
         if t not in m.defined:
             ctx.count('undefined_slices_judged')
-            ctx.require(item is None, 'undefined-slice:projected-is-not-None', dict(what, t=t))
+            jrequire(ctx, item is None, 'undefined-slice:projected-is-not-None', dict(what, t=t))
             continue
-        if not ctx.require(item is not None, 'projected:defined-slice-is-None', dict(what, t=t)):
+        if not jrequire(ctx, item is not None, 'projected:defined-slice-is-None', dict(what, t=t)):
             continue
         o = item[0]
+        jc(ctx, 'projected:entry-not-Obs')
         if not is_obs(o):
             ctx.ev()
             ctx.violation('projected:entry-not-Obs', dict(what, t=t, type=type(o).__name__))
@@ -582,12 +612,13 @@ def judge_projected(ctx, m, t0, ts, sort, n, corr, vo, fvec, what):
             ctx.count('projected_ill_conditioned_not_judged')
             continue
         ctx.count('projected_values_judged')
-        ctx.close(o.value, lam_t[l], 'projected:value-is-not-F_n(t)/F_n(t0)', 't=%d' % t, rtol=1e-12 + FV * est_l, detail=what)
+        jclose(ctx, o.value, lam_t[l], 'projected:value-is-not-F_n(t)/F_n(t0)', 't=%d' % t, rtol=1e-12 + FV * est_l, detail=what)
         if not vo:
             v = fvec[t] if isinstance(fvec, list) else fvec
             if v is None:
                 continue
             names = obs_chain_names(o)
+            jc(ctx, 'projected:chain-names')
             if names != sorted(m.chains):
                 ctx.ev()
                 ctx.violation('projected:chain-names', dict(what, t=t, got=names, exp=sorted(m.chains)))
@@ -596,7 +627,7 @@ def judge_projected(ctx, m, t0, ts, sort, n, corr, vo, fvec, what):
             for c, arr in dG(m).items():
                 exp = np.einsum('i,j,ijc->c', v, v, arr[t])
                 scale = float(np.einsum('i,j,ij->', np.abs(v), np.abs(v), np.max(np.abs(arr[t]), axis=2)))
-                ctx.close(obs_deltas(o, m.chains)[c], exp, 'projected:fluctuations-at-fixed-vector', 't=%d chain %s' % (t, c),
+                jclose(ctx, obs_deltas(o, m.chains)[c], exp, 'projected:fluctuations-at-fixed-vector', 't=%d chain %s' % (t, c),
                           rtol=1e-11, scale=max(scale, 1e-300), detail=what)
         elif est_d <= 0.1 * THR:
             names = obs_chain_names(o)
@@ -607,8 +638,9 @@ def judge_projected(ctx, m, t0, ts, sort, n, corr, vo, fvec, what):
             scale = max(max(float(np.max(np.abs(e))) for e in exp.values()),
                         float(lam_t[l]) * max(float(np.max(np.abs(m.dE[c][l]))) for c in m.chains), 1e-300)
             for c in m.chains:
-                ctx.close(obs_deltas(o, m.chains)[c], exp[c], 'vector_obs:projected-fluctuations-are-not-those-of-F_n(t)/F_n(t0)',
+                jclose(ctx, obs_deltas(o, m.chains)[c], exp[c], 'vector_obs:projected-fluctuations-are-not-those-of-F_n(t)/F_n(t0)',
                           't=%d chain %s' % (t, c), rtol=1e-10 + FD * est_d, scale=scale, detail=what)
+            jc(ctx, 'vector_obs:projected-chain-names')
             if not set(exp_names) <= set(names):
                 ctx.ev()
                 ctx.violation('vector_obs:projected-chain-names', dict(what, t=t, got=names, exp=exp_names))
@@ -626,7 +658,7 @@ def hold(m, what, obj):
 def judge_held(ctx, m):
     for what, obj, d in getattr(m, 'held', []):
         ctx.count('held_results_judged')
-        ctx.require(fast_digest(obj) == d, 'aliasing:earlier-result-changed-by-later-call', dict(result=what, N=m.N, T=m.T))
+        jrequire(ctx, fast_digest(obj) == d, 'aliasing:earlier-result-changed-by-later-call', dict(result=what, N=m.N, T=m.T))
     m.held = []
 
 
@@ -638,6 +670,7 @@ def judge_no_shared_memory(ctx, vecs, sort, what):
             if isinstance(v, np.ndarray) and v.dtype != object:
                 arrs.append(v)
     ctx.ev()
+    jc(ctx, 'aliasing:vectors-of-different-states-or-times-share-memory')
     for i in range(len(arrs)):
         for j in range(i):
             if np.may_share_memory(arrs[i], arrs[j]) and np.shares_memory(arrs[i], arrs[j]):
@@ -747,7 +780,7 @@ def projected_variant(ctx, rng, m, sort, n, vecs, vo, what):
     ctx.cell('projected', how, 'obs' if vo else 'float')
     ctx.count('projected_variants_judged')
     judge_projected(ctx, m, m.t0, m.ts, sort, n, pr, vo, fv, dict(what, via='projected:' + how))
-    ctx.require(fast_digest(vec) == before, 'mutation:projected-changes-its-vector-argument', dict(what, how=how))
+    jrequire(ctx, fast_digest(vec) == before, 'mutation:projected-changes-its-vector-argument', dict(what, how=how))
 
 
 def case_gevp_float(ctx, rng, N, nonsym, nonepat, kind):
@@ -757,7 +790,7 @@ def case_gevp_float(ctx, rng, N, nonsym, nonepat, kind):
     if kappa(m, t0) > 1e9:
         raise Skip()
     C = m.corr
-    ctx.equal(bool(C.is_matrix_symmetric()), (not nonsym) or 'presym' in m.state, 'input:is_matrix_symmetric',
+    jequal(ctx, bool(C.is_matrix_symmetric()), (not nonsym) or 'presym' in m.state, 'input:is_matrix_symmetric',
               'symmetric input recognised / antisymmetric part seen', detail=dict(mirrored=m.mirrored, stored=m.state, scale=m.scale))
     res = {}
     for method in ('eigh', 'cholesky', None):
@@ -784,7 +817,7 @@ def case_gevp_float(ctx, rng, N, nonsym, nonepat, kind):
             one = C.GEVP(t0, ts=ts_arg, sort=sort, state=ni(rng, n), **kw)
             same = np.array_equal(vals(one), vals(vecs[n])) if sort is None else \
                 all((a is None and b is None) or (a is not None and b is not None and np.array_equal(a, b)) for a, b in zip(one, vecs[n]))
-            ctx.require(same, 'gevp:state-argument-selects-another-vector', dict(what, state=n))
+            jrequire(ctx, same, 'gevp:state-argument-selects-another-vector', dict(what, state=n))
     # eigh vs cholesky
     kap = kappa(m, t0)
     for sort in ('Eigenvalue', 'Eigenvector', None):
@@ -862,6 +895,8 @@ def do_prune(ctx, rng, m, Ntrunc, t0b, idx):
     kw = dict(tproj=ni(rng, ts), t0proj=ni(rng, t0))
     if idx % 4 == 3:
         kw['basematrix'] = C
+    if len(m.defined) < T:
+        jc(ctx, 'prune:undefined-slice-raises')
     try:
         P = C.prune(ni(rng, Ntrunc), **kw)
     except (ValueError, TypeError) as e:
@@ -870,6 +905,7 @@ def do_prune(ctx, rng, m, Ntrunc, t0b, idx):
             ctx.violation('prune:undefined-slice-raises', dict(what, error=repr(e)[:200]))
             return
         raise
+    jc(ctx, 'prune:shape')
     if getattr(P, 'T', None) != T or getattr(P, 'N', None) != Ntrunc:
         ctx.ev()
         ctx.violation('prune:shape', dict(what, got_T=getattr(P, 'T', None), got_N=getattr(P, 'N', None)))
@@ -893,24 +929,24 @@ def do_prune(ctx, rng, m, Ntrunc, t0b, idx):
         item = P.content[t]
         if t not in m.defined:
             ctx.count('undefined_slices_judged')
-            ctx.require(item is None, 'undefined-slice:pruned-is-not-None', dict(what, t=t))
+            jrequire(ctx, item is None, 'undefined-slice:pruned-is-not-None', dict(what, t=t))
             continue
-        if not ctx.require(item is not None, 'prune:defined-slice-is-None', dict(what, t=t)):
+        if not jrequire(ctx, item is not None, 'prune:defined-slice-is-None', dict(what, t=t)):
             continue
         got = vals(item).reshape(Ntrunc, Ntrunc)
         lam_t = lam_at(m, t0, t)
         # G'_ij = v_i^T G(t) v_j = delta_ij F_i(t)/F_i(t0proj) (+ the antisymmetric part of a non-symmetric target)
         exp = V.T @ m.Gin[t] @ V
         scale = float(np.max(np.abs(Vall).T @ np.abs(m.Gin[t]) @ np.abs(Vall))) if m.nonsym else float(np.max(lam_t))
-        ctx.close(got, exp, 'prune:elements-are-not-v_i^T-G(t)-v_j', 't=%d' % t, rtol=tolv, scale=scale, detail=what)
+        jclose(ctx, got, exp, 'prune:elements-are-not-v_i^T-G(t)-v_j', 't=%d' % t, rtol=tolv, scale=scale, detail=what)
         if not m.nonsym:
-            ctx.close(np.diag(got), lam_t[kept], 'prune:diagonal-is-not-F_i(t)/F_i(t0proj)', 't=%d' % t, rtol=tolv, scale=float(np.max(lam_t)), detail=what)
+            jclose(ctx, np.diag(got), lam_t[kept], 'prune:diagonal-is-not-F_i(t)/F_i(t0proj)', 't=%d' % t, rtol=tolv, scale=float(np.max(lam_t)), detail=what)
         # fluctuations at fixed vectors: v_i^T dG(t) v_j
         for c, arr in dg.items():
             exp_d = np.einsum('ai,abc,bj->ijc', V, arr[t], V)
             got_d = np.array([[obs_deltas(item[i, j] if item.ndim == 2 else item[0], m.chains)[c] for j in range(Ntrunc)] for i in range(Ntrunc)])
             scale = float(np.einsum('ai,ab,bj->ij', np.abs(Vall), np.max(np.abs(arr[t]), axis=2), np.abs(Vall)).max())
-            ctx.close(got_d, exp_d, 'prune:fluctuations-are-not-v_i^T-dG-v_j', 't=%d chain %s' % (t, c),
+            jclose(ctx, got_d, exp_d, 'prune:fluctuations-are-not-v_i^T-dG-v_j', 't=%d chain %s' % (t, c),
                       rtol=1e-11 + tolv, scale=max(scale, 1e-300), detail=what)
     if m.fluctuates:
         ctx.nontrivial.add(digest(m.key, 'prune', Ntrunc))
@@ -931,9 +967,9 @@ def do_prune(ctx, rng, m, Ntrunc, t0b, idx):
         for t in range(t0b + 1, T):
             item = evc.content[t]
             if t not in m.defined:
-                ctx.require(item is None, 'undefined-slice:projected-is-not-None', dict(what, t=t, pruned=True))
+                jrequire(ctx, item is None, 'undefined-slice:projected-is-not-None', dict(what, t=t, pruned=True))
                 continue
-            if not ctx.require(item is not None, 'projected:defined-slice-is-None', dict(what, t=t, pruned=True)):
+            if not jrequire(ctx, item is not None, 'projected:defined-slice-is-None', dict(what, t=t, pruned=True)):
                 continue
             lam_b = Fk[t] / Fk[t0b]
             order = [int(i) for i in np.argsort(-(Fk[tsb] / Fk[t0b] if sortb == 'Eigenvector' else lam_b), kind='stable')]
@@ -956,7 +992,7 @@ def do_prune(ctx, rng, m, Ntrunc, t0b, idx):
                 continue
             o = item[0]
             ctx.count('projected_values_judged')
-            ctx.close(o.value, lam_b[k], 'prune:energies-of-kept-states-not-preserved', 'state %d t=%d' % (n, t), rtol=1e-12 + FV * est,
+            jclose(ctx, o.value, lam_b[k], 'prune:energies-of-kept-states-not-preserved', 'state %d t=%d' % (n, t), rtol=1e-12 + FV * est,
                       detail=dict(what, t0=t0b, sort=sortb, vector_obs=vo))
             if vo and est_f <= 0.1 * THR:
                 ctx.count('projected_fluctuations_judged')
@@ -964,7 +1000,7 @@ def do_prune(ctx, rng, m, Ntrunc, t0b, idx):
                 scale = max(max(float(np.max(np.abs(e))) for e in exp.values()),
                             float(lam_b[k]) * max(float(np.max(np.abs(m.dE[c][kept[k]]))) for c in m.chains), 1e-300)
                 for c in m.chains:
-                    ctx.close(obs_deltas(o, m.chains)[c], exp[c], 'prune:vector_obs-fluctuations-of-kept-energies-not-preserved',
+                    jclose(ctx, obs_deltas(o, m.chains)[c], exp[c], 'prune:vector_obs-fluctuations-of-kept-energies-not-preserved',
                               'state %d t=%d chain %s' % (n, t, c), rtol=1e-10 + FD * est_f, scale=scale,
                               detail=dict(what, t0=t0b, sort=sortb))
     ctx.sample({'prune': what, 'kept_states': kept, 'E': m.E})
@@ -1029,7 +1065,7 @@ def case_history(ctx, rng, N, idx):
     op_gevp(second, sort0, method0)
     r3 = op_gevp(first, sort0, method0)
     ctx.count('history_repeats_judged')
-    ctx.require(fast_digest(r3) == d1, 'history:GEVP-result-depends-on-calls-made-in-between', dict(N=N, T=T, t0=t0, sort=sort0, method=method0))
+    jrequire(ctx, fast_digest(r3) == d1, 'history:GEVP-result-depends-on-calls-made-in-between', dict(N=N, T=T, t0=t0, sort=sort0, method=method0))
     ops = [op_eigenvalue, op_projected, op_prune] if N >= 3 else [op_eigenvalue, op_projected]
     for step in range(int(rng.integers(4, 9))):
         m = ms[int(rng.integers(0, K))]
@@ -1041,7 +1077,7 @@ def case_history(ctx, rng, N, idx):
             ops[int(rng.integers(0, len(ops)))](m)
     r4 = op_gevp(first, sort0, method0)
     ctx.count('history_repeats_judged')
-    ctx.require(fast_digest(r4) == d1, 'history:GEVP-result-depends-on-calls-made-in-between', dict(N=N, T=T, t0=t0, sort=sort0, method=method0, at='end'))
+    jrequire(ctx, fast_digest(r4) == d1, 'history:GEVP-result-depends-on-calls-made-in-between', dict(N=N, T=T, t0=t0, sort=sort0, method=method0, at='end'))
     for m in ms:
         judge_held(ctx, m)
         judge_unchanged(ctx, m, 'history')
@@ -1052,6 +1088,7 @@ def case_history(ctx, rng, N, idx):
 # inputs outside the domain must be refused, not answered
 def must_raise(ctx, row, fn, **detail):
     ctx.count('rejections_judged')
+    jc(ctx, 'reject:%s:accepted' % row)
     ctx.ev()
     try:
         r = fn()
@@ -1160,12 +1197,13 @@ def case_mpm(ctx, rng, k, idx):
             pass
         en = PE.mpm.matrix_pencil_method(data, **kw)
         ctx.count('history_repeats_judged')
-        ctx.require(fast_digest(en) == fast_digest(first), 'history:mpm-result-depends-on-calls-made-in-between', dict(k=k, T=T, p=p))
+        jrequire(ctx, fast_digest(en) == fast_digest(first), 'history:mpm-result-depends-on-calls-made-in-between', dict(k=k, T=T, p=p))
     else:
         en = PE.mpm.matrix_pencil_method(data, **kw)
     ctx.count('input_unchanged_judged')
-    ctx.require(fast_digest(data) == d0, 'mutation:mpm-changes-its-input', dict(k=k, T=T, p=p, how=how))
+    jrequire(ctx, fast_digest(data) == d0, 'mutation:mpm-changes-its-input', dict(k=k, T=T, p=p, how=how))
     what = dict(k=k, T=T, p=p, E=E, amplitudes=amp, input=how)
+    jc(ctx, 'mpm:result-shape')
     if len(en) != k or not all(is_obs(x) for x in en):
         ctx.ev()
         ctx.violation('mpm:result-shape', dict(what, got=len(en)))
@@ -1178,21 +1216,23 @@ def case_mpm(ctx, rng, k, idx):
         ctx.count('mpm_ill_conditioned_not_judged')
         return
     gv = np.array([x.value for x in en])
+    jc(ctx, 'mpm:energies-not-sorted')
     if not np.all(np.diff(np.abs(gv)) >= 0):
         ctx.ev()
         ctx.violation('mpm:energies-not-sorted', dict(what, got=gv))
         return
     for n in range(k):
         ctx.count('mpm_energies_judged')
-        ctx.close(gv[n], E[n], 'mpm:energy-value', 'level %d' % n, rtol=vtol, detail=what)
+        jclose(ctx, gv[n], E[n], 'mpm:energy-value', 'level %d' % n, rtol=vtol, detail=what)
         if dtol > 1e-6:
             continue
         got = obs_deltas(en[n], chains)
         exp = obs_deltas(Eo[n], chains)
         scale = max(max(float(np.max(np.abs(e))) for e in exp.values()), 1e-300)
         for cn in chains:
-            ctx.close(got[cn], exp[cn], 'mpm:energy-fluctuations', 'level %d chain %s' % (n, cn), rtol=dtol, scale=scale, detail=what)
+            jclose(ctx, got[cn], exp[cn], 'mpm:energy-fluctuations', 'level %d chain %s' % (n, cn), rtol=dtol, scale=scale, detail=what)
         extra = [x for x in obs_chain_names(en[n]) if x not in chains]
+        jc(ctx, 'mpm:chain-names')
         if extra:
             ctx.ev()
             ctx.violation('mpm:chain-names', dict(what, extra=extra))
